@@ -31,6 +31,15 @@ def plan(tier, seed):
   jobs = []
   for i in range(0, n, per):
     jobs.append({'kind': 'dyn', 'seed': seed, 'first': i, 'count': per})
+  # ordered forest shapes with 1..6 links: a seed-rotated quarter in the quick
+  # tier, all 196 in the thorough tier
+  from vf import gen
+  shapes = [p for m in range(1, 7) for p in gen.all_forests(m)]
+  if tier == 'quick':
+    shapes = [p for i, p in enumerate(shapes) if (i + seed) % 4 == 0]
+  for i in range(0, len(shapes), 4):
+    jobs.append({'kind': 'dyn', 'seed': seed, 'first': 300000 + i,
+                 'count': len(shapes[i:i + 4]), 'shapes': shapes[i:i + 4]})
   return jobs
 
 
@@ -41,7 +50,8 @@ def floors(tier):
           'ev:smooth_force': 180 * k, 'ev:step_equals_reference': 60 * k,
           'states_with_slide_on_rotated_body': 60 * k,
           'steps_with_slide_on_rotated_body': 20 * k,
-          'models_mixed_stack': 8 * k, 'deep_chain_models': 4 * k}
+          'models_mixed_stack': 8 * k, 'deep_chain_models': 4 * k,
+          'forest_shapes_enumerated': 45 if tier == 'quick' else 196}
 
 
 def run(job, mon):
@@ -55,7 +65,11 @@ def run(job, mon):
 
   for c in range(job['first'], job['first'] + job['count']):
     rng = np.random.default_rng([job['seed'], c, 2])
-    if c % 4 == 3:
+    if 'shapes' in job:
+      spec = gen.gen_model(rng, parents=job['shapes'][c - job['first']],
+                           max_stack=2, limit_prob=0.2)
+      mon.count('forest_shapes_enumerated')
+    elif c % 4 == 3:
       spec = gen.gen_model(rng, stack_kinds=str(rng.choice(['slide', 'any'])),
                            limit_prob=0.15)
     elif c % 4 == 2:
